@@ -22,6 +22,15 @@ CHECKS = [
      "text": "Image.serialize is proved to write exactly the 13 documented keys plus unified/additional_variants iff unified, and Image.deserialize(serialize(x)) to restore all 15 "
              "attributes for every valid image (full-domain symbolic fields); the compose section likewise. Cell placement/sorting loops are covered by random manifests (bounded).",
      "note": _NOTE + _RT_NOTE},
+    {"id": "C03", "technique": "contract-based deductive verification: pyvc VCs on Rpms/Modules/ExtraFiles serialize+deserialize (payload stored and read back verbatim) and on the add postconditions + AST clause on json.dump arguments",
+     "text": "For the three manifest classes serialize followed by deserialize is proved to hand back the very same payload object with header (type, current version) and compose "
+             "section intact and nothing else in the document; the shape of every entry filed by add is the add postcondition (C12); build_file is shown to call json.dump with sorted keys/indent 4.",
+     "note": _NOTE + _RT_NOTE},
+    {"id": "C12", "technique": "contract-based deductive verification: pyvc VCs/SMT on Rpms.add, Modules.add, ExtraFiles.add over an ARBITRARY symbolic manifest (functional postcondition, write-log frame, refusal) + rx parse of the module UID pattern",
+     "text": "Each add is verified on an arbitrary (unbounded) nested manifest: on success the entry sits under the canonical keys (NEVRA / module UID from the proved parser contracts, used "
+             "modularly) with the documented value, every write lies on the addressed chain and upper levels are created only when absent (frame), the RPM list is extended; each refusal raises "
+             "ValueError/TypeError exactly under the documented conditions and writes nothing. _relative_to strips only on a component boundary.",
+     "note": _NOTE + "; manifests assumed tree-shaped with the nested dict/list shape invariant; dump_for_tree's loop is bounded only"},
     {"id": "C06", "technique": "contract-based deductive verification: pyvc VCs/SMT -- validate() of every flat metadata class proved equivalent to the documented field rules; section writers proved to write only valid objects + bounded one-field-corruption enumeration for containers",
      "text": "For 15 metadata classes validate() (reflection resolved from the AST and cross-checked against dir()) is proved to return iff the documented field rules hold, to raise only "
              "TypeError/ValueError and to change nothing; the flat section writers are proved to return only for valid objects and to write nothing on refusal. Nested containers are covered by "
